@@ -19,25 +19,29 @@ pub(crate) fn impl_inverse_uint_scale(n: &BigUint, scale: i64, ctx: &Context) ->
     let mut running_result = next_iteration(guess);
     debug_assert!(!running_result.is_zero(), "Zero detected in inverse calculation of {}e{}", n, -scale);
 
-    let mut prev_result = BigDecimal::one();
-    let mut result = BigDecimal::zero();
-
-    // TODO: Prove that we don't need to arbitrarily limit iterations
-    // and that convergence can be calculated
-    while prev_result != result {
-        // store current result to test for convergence
-        prev_result = result;
-
-        // calculate next iteration
-        running_result = next_iteration(running_result).with_prec(max_precision + 2);
-
-        // 'result' has clipped precision, 'running_result' has full precision
-        result = if running_result.digits() > max_precision {
-            running_result.with_precision_round(ctx.precision(), ctx.rounding_mode())
-        } else {
-            running_result.clone()
-        };
+    // Iterate until the full-precision iterate converges: it either repeats or
+    // alternates between two neighbouring values.  (Newton's iteration is
+    // self-correcting: once within a few units of 1/n, every step lands on the
+    // rounding of 1/n itself or, at a rounding boundary, on its neighbour.)
+    // Comparing the *clipped* results of two steps is not enough: for small
+    // precisions they agree long before the iterate has converged.
+    let mut prev_running_result = BigDecimal::zero();
+    loop {
+        let next_result = next_iteration(running_result.clone()).with_prec(max_precision + 2);
+        let converged = next_result == running_result || next_result == prev_running_result;
+        prev_running_result = running_result;
+        running_result = next_result;
+        if converged {
+            break;
+        }
     }
+
+    // 'result' has clipped precision, 'running_result' has full precision
+    let result = if running_result.digits() > max_precision {
+        running_result.with_precision_round(ctx.precision(), ctx.rounding_mode())
+    } else {
+        running_result
+    };
 
     return result;
 }
